@@ -68,7 +68,7 @@ def gen_workload(tape):
     ops = []
     for _ in range(tape.count(4, 10, "nops", (4, 5))):
         kinds = ["closest", "closest", "closest", "getitem", "create", "delete",
-                 "closest", "reset_cache", "set_coverage"]
+                 "closest", "reset_cache", "set_coverage", "other_fileset"]
         if w["backend"] == "zip":
             kinds = ["closest", "closest", "getitem"]
         o = {"op": tape.pick(kinds, "op")}
@@ -82,6 +82,11 @@ def gen_workload(tape):
             fs = F.gen_files(tape, t, 1)
             o["file"] = dict(fs[0], t0=fs[0]["t0"].isoformat(),
                              t1=fs[0]["t1"].isoformat()) if fs else None
+        elif o["op"] == "other_fileset":
+            o["how"] = tape.pick(["copy", "fresh"], "other_how")
+            o["decoy"] = tape.choice(len(C1.DECOYS), "other_decoy")
+            o["what"] = [tape.flag("other_ph", 2, 3), tape.flag("other_excl", 1, 2),
+                         tape.flag("other_find", 2, 3)]
         elif o["op"] == "delete":
             o["idx"] = tape.choice(20, "didx")
         elif o["op"] == "set_coverage":
@@ -161,7 +166,7 @@ class Run(C1.Run):
 
     def op(self, i, o):
         kind = o["op"]
-        if kind in ("create", "delete", "reset_cache", "set_coverage"):
+        if kind in ("create", "delete", "reset_cache", "set_coverage", "other_fileset"):
             return super().op(i, o)
         w = self.w
         NoFilesError = F._T["NoFilesError"]
